@@ -273,3 +273,40 @@ def narrowing_casts(body):
             if slo < dlo or shi > dhi:
                 out.append((bb, s, r[4], r[3]))
     return out
+
+
+def typed_field_reads(body, type_pat):
+    """fields projected from locals whose declared type matches type_pat (after derefs): set of names"""
+    rx = re.compile(type_pat)
+    out = set()
+
+    def visit(o):
+        if isinstance(o, list):
+            if o and isinstance(o[0], int) and all(isinstance(x, str) for x in o[1:]):
+                if o[0] < len(body.locals) and rx.search(body.locals[o[0]]):
+                    for x in o[1:]:
+                        if x == "*":
+                            continue
+                        if x.startswith(".") and not x.startswith(".^"):
+                            out.add(x[1:])
+                        break
+                return
+            for x in o:
+                visit(x)
+
+    for i, s in body.all_stmts():
+        visit(s)
+    live = body.live_blocks()
+    for i, b in enumerate(body.blocks):
+        if i in live:
+            visit(b["t"])
+    return out
+
+
+def char_switch_arms(body):
+    """largest switch on a char in the body: {code point: target bb}"""
+    best = {}
+    for sbb, t in body.switches():
+        if t[4] == "char" and len(t[2]) > len(best):
+            best = {int(v): tgt for v, tgt in t[2]}
+    return best
